@@ -48,8 +48,11 @@ async def check_case(case, rec, ctx):
                     f"{where}: return code {rc}, do_clean={stage.config.get('do_clean', True)}, "
                     f"targets={stage.config.get('targets')}, yet deleted {files} {removed_dirs}",
                 )
+            written_now = {e["path"]: e["sha"] for e in stage.result.steplog
+                           if e["op"] in ("write", "write_partial")}
             C.check_deletions(PROPERTY, where, before, after, ledger,
-                              static=C.static_paths(stage.result.tables))
+                              static=C.static_paths(stage.result.tables),
+                              written_now=written_now)
         else:
             if not tool["commit"] and (files or removed_dirs):
                 raise Violation(f"{PROPERTY}/clean-without-commit-deleted",
